@@ -1,4 +1,6 @@
 """C17 - string function laws: the range-check clause (C17.R1)."""
+import re
+
 from .. import interval as iv, mir
 from ..core import CheckError
 from . import common
@@ -260,13 +262,27 @@ def r4_val_sign(ctx, rule="C17.R4"):
                         continue
                     negates_on_positive_side = {x for x in body.reachable(pos)
                                                 if x in negate_blocks and not body.dominates(neg, x)}
-                    ok = ok and body.every_path_passes(neg, exits, negate_blocks) and not negates_on_positive_side
+                    # on the negative side the only way around negate() is a magnitude of zero (-0 = 0)
+                    zero_exits = set()
+                    for zb in body.reachable(neg):
+                        zt = body.term(zb)
+                        if zt["k"] != "switch":
+                            continue
+                        zo = pv.of_operand(zt["o"])
+                        if zo[0] == "bin" and zo[1] == "Eq" and any(
+                                x[0] == "const" and re.match(r"^-?0(\.0*)?(_?(f32|f64|i32|i64|usize))?$", x[1]) for x in (zo[2], zo[3])):
+                            zero_exits |= {tg for v, tg in zt["ts"] if v != 0} or {zt["else"]}
+                            if any(v == 0 for v, _tg in zt["ts"]):
+                                zero_exits = {zt["else"]} | {tg for v, tg in zt["ts"] if v != 0}
+                    ok = ok and body.every_path_passes(neg, exits, negate_blocks | zero_exits) and \
+                        bool(negate_blocks & body.reachable(neg)) and not negates_on_positive_side
                 ctx.decide(ok and not negated, rule, key, loc,
                            "built from the magnitude, then negated on the negative side of the sign test only",
                            "a %s built by val() before the sign is tested does not reach `negate()` exactly on the "
                            "negative side of the test" % r["variant"])
     ctx.analysed_units(rule, numeric_results=n, sign_tests=len(sign_sw))
-    ctx.require(rule, 5)
+    # (since fix 591360b val() builds one DOUBLE from the magnitude and negates it on the negative side)
+    ctx.require(rule, 1)
 
 
 def run(ctx):
